@@ -22,7 +22,8 @@ type CaseC10 struct {
 	Steps   []string               `json:"steps"` // plain / wildcard path
 	Key     string                 `json:"key"`
 	Conds   []Cond                 `json:"conds,omitempty"`
-	NewKind string                 `json:"new_kind"` // scalar | map | Map | str | str-bool | str-num
+	NewKind string                 `json:"new_kind"` // scalar | map | Map | str | str-bool | str-num | existing
+	NewVal  interface{}            `json:"new_val,omitempty"` // kind "existing": a scalar that some addressed entry already holds
 	Sep     string                 `json:"sep,omitempty"`
 	// Pre is an earlier update of the same Map (a history of two calls): the library stores the one
 	// value object at every node it addresses, so the Map the second call works on shares structure.
@@ -152,8 +153,25 @@ func genC10(t *rapid.T) CaseC10 {
 		}
 		c.Conds = genCondsFrom(t, 1, 2, cands)
 	}
-	c.NewKind = rapid.SampledFrom([]string{"scalar", "scalar", "map", "Map", "str", "str-bool", "str-num"}).Draw(t, "newkind")
+	c.NewKind = rapid.SampledFrom([]string{"scalar", "scalar", "map", "Map", "str", "str-bool", "str-num", "existing"}).Draw(t, "newkind")
 	c.Sep = rapid.SampledFrom([]string{":", ":", "|"}).Draw(t, "sep")
+	if c.NewKind == "existing" {
+		// the new value equals what an entry under the key already holds
+		var held []interface{}
+		refValuesForKey(c.Map, c.Key, &held)
+		var scalars []interface{}
+		for _, h := range held {
+			switch h.(type) {
+			case string, float64, bool:
+				scalars = append(scalars, h)
+			}
+		}
+		if len(scalars) == 0 {
+			c.NewKind = "scalar"
+		} else {
+			c.NewVal = scalars[rapid.IntRange(0, len(scalars)-1).Draw(t, "heldidx")]
+		}
+	}
 	return c
 }
 
@@ -396,6 +414,9 @@ func checkC10on(c CaseC10, subject map[string]interface{}, sep, path string, sp 
 		return nil
 	}
 
+	if c.NewKind == "existing" {
+		return checkC10existing(c, subject, start, path, sp, info)
+	}
 	var newVal interface{} = sentinel
 	if c.NewKind != "scalar" {
 		newVal = map[string]interface{}{"__new": sentinel}
@@ -512,6 +533,84 @@ func checkC10on(c CaseC10, subject map[string]interface{}, sep, path string, sp 
 	info.ClassIf(len(c.Conds) > 0, "with sub-keys")
 	info.ClassIf(len(ps.mand) > 0 && others > 0, "mandatory target and another entry under the key that must not change")
 	info.NonTrivial(len(ps.mand) > 0 && others > 0)
+	return nil
+}
+
+// valueAt follows a position like /a/2/b.
+func valueAt(root interface{}, pos string) (interface{}, bool) {
+	cur := root
+	for _, seg := range strings.Split(strings.TrimPrefix(pos, "/"), "/") {
+		switch x := cur.(type) {
+		case map[string]interface{}:
+			v, ok := x[seg]
+			if !ok {
+				return nil, false
+			}
+			cur = v
+		case []interface{}:
+			i, err := strconv.Atoi(seg)
+			if err != nil || i < 0 || i >= len(x) {
+				return nil, false
+			}
+			cur = x[i]
+		default:
+			return nil, false
+		}
+	}
+	return cur, true
+}
+
+// checkC10existing: the new value is one that addressed entries may already hold, so a structural diff cannot
+// count the replacements; the count is bounded by the reference sets and tied to the query clause instead.
+func checkC10existing(c CaseC10, subject, start map[string]interface{}, path string, sp []string, info *Info) *Failure {
+	newVal := c.NewVal
+	ps := refUpdateSets(copyMap(start), c.Key, c.Steps, c.Conds, info)
+	gotCnt, err := mxj.Map(subject).UpdateValuesForPath(map[string]interface{}{c.Key: newVal}, path, sp...)
+	if err != nil {
+		return failf("error", "map %s path %q key %q: %v", canon(start), path, c.Key, err)
+	}
+	R := map[string]bool{}
+	var bad []string
+	diffPositions(start, subject, "", newVal, R, &bad)
+	fail := ""
+	if len(bad) > 0 {
+		sort.Strings(bad)
+		fail = fmt.Sprintf("frame violated at %v;", bad)
+	}
+	for _, p := range setKeys(R) {
+		if !ps.mand[p] && !ps.opt[p] {
+			fail += fmt.Sprintf(" unaddressed write at %s;", p)
+		}
+	}
+	for _, p := range setKeys(ps.mand) {
+		if v, ok := valueAt(subject, p); !ok || !reflect.DeepEqual(v, newVal) {
+			fail += fmt.Sprintf(" addressed value at %s is %s, not the new value;", p, canon(v))
+		}
+	}
+	if gotCnt < len(ps.mand) || gotCnt > len(ps.mand)+len(ps.opt) {
+		fail += fmt.Sprintf(" count %d outside [%d,%d] (addressed values);", gotCnt, len(ps.mand), len(ps.mand)+len(ps.opt))
+	}
+	if fail == "" && c.Key == c.Steps[len(c.Steps)-1] && len(c.Conds) == 0 {
+		vs, verr := mxj.Map(subject).ValuesForPath(path)
+		ok := verr == nil && len(vs) == gotCnt
+		for _, v := range vs {
+			ok = ok && reflect.DeepEqual(v, newVal)
+		}
+		if !ok {
+			fail = fmt.Sprintf(" ValuesForPath(%q) afterwards = %s, want %d copies of %s;", path, canon(vs), gotCnt, canon(newVal))
+		}
+	}
+	if fail != "" {
+		return failf("update-mismatch", "%s\nbefore %s\npath %q key %q new value %s (already present) sub-keys %q\nafter  %s count %d\nmandatory %v optional %v", fail, canon(start), path, c.Key, canon(newVal), sp, canon(subject), gotCnt, setKeys(ps.mand), setKeys(ps.opt))
+	}
+	already := 0
+	for p := range ps.mand {
+		if v, ok := valueAt(start, p); ok && reflect.DeepEqual(v, newVal) {
+			already++
+		}
+	}
+	info.ClassIf(already > 0, "an addressed entry already held the new value")
+	info.NonTrivial(already > 0 && len(ps.mand) > 0)
 	return nil
 }
 
